@@ -13,7 +13,10 @@ vars == <<l>>
 \* ---- the inputs, decomposed from sites and cuts only ---------------------------------
 MinBody == 2       \* deliberate deviation named in DESIGN 5: the generic structures need >= 2 nt of target / backbone
 Dm(e) == [i \in 1..Len(e.mods) |-> DecompModule(e.mods[i].seq, e.enz)]
-Dv(e) == DecompVector(e.vec.seq, e.enz)
+\* (vloose: the driver says the vector belongs to a kit class whose structure does not cover the backbone, and put a further
+\* site of the enzyme there)
+Dv(e) == LET d == DecompVector(e.vec.seq, e.enz) IN
+         IF d.ok \/ ~("vloose" \in DOMAIN e /\ e.vloose) THEN d ELSE DecompVectorLoose(e.vec.seq, e.enz)
 WellFormed(e, dm, dv) ==
   /\ dv.ok /\ Len(dv.tgt) >= e.enz.ovh + MinBody
   /\ \A i \in 1..Len(dm) : dm[i].ok /\ Len(dm[i].tgt) >= e.enz.ovh + MinBody
